@@ -17,20 +17,16 @@ ENTRY = {
             'geometric strategy additionally <= 3 (L1+L2) NEWTON_ERROR_RATIO + 64 (n1+n2+2) u size with the extracted ratio. '
             'Exceptions are counted by type, not failures. non-trivial = call returned at least one column; distinct by hash of '
             'exact nets, strategy, route',
-    'partial': ['Lean: component theorems only: solve2x2 exact in both pivot branches / singular iff det = 0 / unique solution; '
-                'Lipschitz constant n*max|dv| from the control polygon (curve_lipschitz, newton_gate_partial, residual_near_root); '
-                'second-order Newton gate in real arithmetic (curve_taylor, newton_gate with the defect of the linear solve as an '
-                'explicit term, newton_step_residual: after the step returned by Model.solve2x2 for the hodograph Jacobian the '
-                'residual is <= ds^2 n1(n1-1)/2 M1 + dt^2 n2(n2-1)/2 M2). Not proved: the floating-point defect of the step, the '
-                'exit test in binary64, wiggle_interval, and the pipeline (which candidates reach Newton, the Gauss-Newton '
-                'double-root regime, de-duplication) - see Model/Geometric (later) - so the property itself rests on the oracle runs',
-                'enforced constant 2^-26 * size instead of "order of 2^-30 * size": the tangential (double-root) Newton exit accepts '
-                'closest-approach points with a gap of about 2^-27 * size; the measured distribution of log2(residual/size) is in '
-                'the evidence'],
-    'trusted_base': ['harness/isolate.py (exact rational subdivision + Krawczyk certificates; validated against sympy resultants '
-                     'on 240 pairs and against the 33 standard cases of curve_intersections.json) for the classification of inputs '
-                     'and the tight bound',
-                     'modelled not verified: helpers.solve2x2 (Python and Fortran) by Model.solve2x2; everything else of the '
-                     'intersection pipeline is exercised, not modelled'],
+    'partial': [
+                'proved (any ordered field, both variants, unbounded): every parameter pair returned by the model of all_intersections - through check_lines, endpoint_check / tangent_bbox_intersection, from_linearized + full Newton, or coincident_parameters - lies in the unit square (C02Pipeline.params_in_unit_square over abstract primitives with contract PrimsOK; C02Concrete.concrete_params_in_unit_square for the concrete primitives of Model/GeometricInst with the library constants); add_intersection only appends',
+                'proved, exact arithmetic: solve2x2 exact in both pivot branches / singular iff det = 0 / unique; the Jacobian of newton_simple is the hodograph; newtonIterate_converged_cases (a converged run left through the exact-zero exit or the small-step exit, for any solver / cut / rounding / fuel); simple_exit_residual + simple_converged_residual: on the simple-root route the returned pair has residual <= 2 ratioSq (C1 M1 + C2 M2) (second-order Taylor bound with explicit Lipschitz constants from the control polygon); with a rounding of the iterate an extra eps (n1 D1 + n2 D2)',
+                'proved negative: the double-root (Gauss-Newton) exit gives NO residual bound - three kernel-decided counterexamples (C02Newton.double_root_exit_no_bound_counterexample*), one of them the listed finding F-L; so for tangential inputs the property rests on the oracle runs and is known to fail there',
+                'not proved: the binary64 defect of the linear solve and of the evaluations inside the exit test (the theorems are in exact arithmetic with an explicit rounding of the iterate only); tied instead by the end-to-end correspondence of the Lean pipeline model with both implementations, which the C03, C18 and C20 checks run on every case (their evidence lists the agreement counts)',
+                'enforced constant 2^-26 * size instead of "order of 2^-30 * size": the tangential Newton exit accepts closest-approach points with a gap of about 2^-27 * size; the measured distribution of log2(residual/size) is in the evidence',
+    ],
+    'trusted_base': [
+                'harness/isolate.py (exact rational subdivision + Krawczyk certificates; validated against sympy resultants on 240 pairs and against the 33 standard cases of curve_intersections.json) for the classification of inputs and the tight bound',
+                "modelled, tied by correspondence (driver op all_intersections, exact rationals with the rounding of Newton iterates to 53 bits): geometric_intersection.all_intersections with Linearization, intersect_one_round, prune / coincident_parameters, check_lines, intersection_helpers.newton_iterate / full_newton(_nonzero), helpers.solve2x2, wiggle_interval, bbox predicates - Python and Fortran variants (Model/Geometric, GeometricInst, Newton, Helpers); not modelled: the algebraic strategy's eigenvalue solver (oracle only)",
+    ],
     'assumptions': COMMON_ASSUME,
 }
